@@ -17,7 +17,7 @@ LEVEL = 'model_checking'
 TECHNIQUE = ('bounded exhaustive enumeration of (container kind, length, slice bounds / index, new elements, layout, entry point) on the '
              'real put/put_slice/view/attribute code with a Python list as reference model on every case; the whole resulting '
              'program is compared structurally with the model rendered through a witness template and parsed by CPython')
-LEVEL_TEXT = ('51 container kinds (every list-like field category, the virtual fields _all/_args/_bases/_body, single fields interleaved with the other field of a call) x lengths 0..3 x all '
+LEVEL_TEXT = ('59 container kinds (every list-like field category, the virtual fields _all/_args/_bases/_body, single fields interleaved with the other field of a call, statement lists holding if statements, containers directly behind a keyword) x lengths 0..3 x all '
               'bounds in -(n+2)..n+2 and "end" x 0..2 new elements x 3 layouts x 9 entry points are executed on the real code and '
               'compared with list semantics; refusals of requests whose model result is valid Python are reported')
 LEVEL_NOTE = ('trusted: Python list / slice.indices semantics, CPython ast; documented refusals: NotImplementedError, minimum lengths '
